@@ -248,7 +248,7 @@ InitCtx(me, init, pt, ct, lcid, results) ==
     [ me |-> me, init |-> init, pt |-> pt, ct |-> ct, ps |-> Slider(pt), cs |-> Slider(ct),
       out |-> <<>>, sc |-> <<>>, depth |-> 0, allowed |-> {0}, it |-> <<>>,
       ok |-> TRUE, nx |-> {}, rq |-> <<>>, lcid |-> lcid, res |-> results,
-      err |-> NoErr, unsup |-> FALSE ]
+      err |-> NoErr, unsup |-> FALSE, kf1 |-> FALSE ]
 
 Push(ctx, st) == [ctx EXCEPT !.out = Append(@, st)]
 Incomplete(ctx) == [ctx EXCEPT !.ok = FALSE]
@@ -306,7 +306,13 @@ ExecCall(i, ctx0) ==
     ELSE IF outChk = "shadow" THEN Raise(ctx0, Uncatch(U_Shadowing))
     ELSE
     LET ar == ResolveAll(ctx0, i.args, 1, <<>>) IN
-    IF ar.r = "err" THEN Raise(ctx0, Catch(ar.code))
+    IF ar.r = "err" THEN
+        \* the arguments fail for good *before* the trace is touched.  If this call was marked as sent while
+        \* its arguments were still unknown (a remote call is, see ExecuteNow), that state is left unconsumed
+        \* and the next instruction will meet it (known finding "args-failed-after-sent", C04); kf1 records
+        \* that the next state of either trace is a call state at this moment
+        LET pn == NextState(ctx0.pt, ctx0.ps)  cn == NextState(ctx0.ct, ctx0.cs) IN
+        Raise([ctx0 EXCEPT !.kf1 = @ \/ (pn.has /\ IsCallState(pn.st)) \/ (cn.has /\ IsCallState(cn.st))], Catch(ar.code))
     ELSE
     LET argsKnown == ar.r = "ok"
         args == IF argsKnown THEN Vals(ar.vals) ELSE <<>>
@@ -522,13 +528,13 @@ Interp(script, me, init, prev, cur, results) ==
         c1 == Exec(script, c0)
         sigs == SortedNames(SetOf(prev.sigs) \cup SetOf(cur.sigs) \cup {me})
         newData == [trace |-> c1.out, lcid |-> c1.lcid, sigs |-> sigs]
-    IN  IF c1.unsup THEN [unsup |-> TRUE, code |-> -2, data |-> prev, next |-> <<>>, reqs |-> <<>>]
+    IN  IF c1.unsup THEN [unsup |-> TRUE, kf1 |-> FALSE, code |-> -2, data |-> prev, next |-> <<>>, reqs |-> <<>>]
         ELSE IF c1.err.cls = "uncatch" THEN
-            [unsup |-> FALSE, code |-> c1.err.code, data |-> prev, next |-> <<>>, reqs |-> <<>>]
+            [unsup |-> FALSE, kf1 |-> c1.kf1, code |-> c1.err.code, data |-> prev, next |-> <<>>, reqs |-> <<>>]
         ELSE IF c1.err.cls = "catch" THEN
-            [unsup |-> FALSE, code |-> c1.err.code, data |-> newData, next |-> SortedNames(c1.nx), reqs |-> c1.rq]
+            [unsup |-> FALSE, kf1 |-> c1.kf1, code |-> c1.err.code, data |-> newData, next |-> SortedNames(c1.nx), reqs |-> c1.rq]
         ELSE
-            [unsup |-> FALSE, code |-> IF c1.res # {} THEN 30000 ELSE 0, data |-> newData,
+            [unsup |-> FALSE, kf1 |-> c1.kf1, code |-> IF c1.res # {} THEN 30000 ELSE 0, data |-> newData,
              next |-> SortedNames(c1.nx), reqs |-> c1.rq]
 
 =============================================================================
